@@ -54,27 +54,32 @@ PROPS = {
         "assumptions": ["a panic of the checking build in a permitted case is not judged; equality of values in strict cases is judged by digest (64-bit SipHash per block)"],
     },
     "C12": {
+        "require": [('sqrt', 'err'), ('log2', 'err'), ('pow', 'err'), ('exp', 'err'), ('powi', 'err'), ('powi', 'value'), ('tan', 'value')],
         "title": "Result-returning math functions are total: Ok or Err, never a panic",
         "stages": [{"driver": "trans"}],
         "rule": TRANS_RULE + "pow: bases x exponents from thinner grids; powi: bases x {|n| <= 64, +-2^k, +-(2^k+-1), i32::MIN, MIN+1, MAX, MAX-1} under an iteration budget (a call cut by the budget is counted, not judged); " + TRIG_RULE + "a state is one (function, type pair, operand tuple), a transition one call under catch_unwind with the tick budget; judged: no unwinding, Err for sqrt of a negative, log of a non-positive, fractional power of a negative base; tan only where the reference says |tan x| <= 64",
         "assumptions": ["powi with |n| up to 2^31 is linear in |n| by design; calls that exceed the iteration budget (70 000 quick, 3 000 000 thorough) are cut and reported as unexplored"],
     },
     "C13": {
+        "require": [('sqrt', 'err'), ('sqrt', 'value'), ('sqrt', 'zero')],
         "title": "sqrt is accurate to a few units in the last place",
         "stages": [{"driver": "trans"}],
         "rule": TRANS_RULE + "oracle: exact integer bracket (R-4)^2 <= X*2^F <= (R+4)^2 on 384-bit integers, sqrt(0) and sqrt(1) exact, result non-negative, Err only for x < 0 or 0 < x < 1 with trunc(2^2F / X) not representable",
     },
     "C14": {
+        "require": [('log2', 'err'), ('ln', 'value'), ('log2', 'zero')],
         "title": "log2 and ln are accurate to the destination's resolution",
         "stages": [{"driver": "trans"}],
         "rule": TRANS_RULE + "oracle: 256-bit series arithmetic (atanh series; self-tested against f64 libm and identities), f64 libm with a guard band for 32-bit destinations; bounds 8 ulp (log2), 2^-23 |ln x| + 8 ulp (ln), exactness on powers of two, sign rule, Err only for x <= 0 or unrepresentable reciprocal",
     },
     "C15": {
+        "require": [('exp', 'value'), ('pow', 'value'), ('powi', 'value'), ('pow', 'zero')],
         "title": "exp, pow and powi are accurate wherever they return Ok",
         "stages": [{"driver": "trans"}],
         "rule": TRANS_RULE + "pow: bases x exponents (|y| <= 64 and the extremes) from thinner grids; powi: bases x the exponent alphabet of C12; oracle: 256-bit exp/ln series; bounds exactly as stated in the property; negative powi against the truncated reciprocal of the subject's own powi(x, |n|)",
     },
     "C16": {
+        "require": [('sin', 'value'), ('cos', 'value'), ('tan', 'value')],
         "title": "sin, cos and tan are accurate over many periods in every supported type",
         "stages": [{"driver": "trans"}],
         "rule": TRIG_RULE + "oracle: 256-bit Taylor series with Machin pi (f64 libm with guard band for I9F23); bounds 2^-16 and range for sin/cos, 2^-14 (1 + tan^2 x) where |tan x| <= 64",
@@ -86,6 +91,7 @@ PROPS = {
         "assumptions": ["every loop body of src/transcendental.rs carries a tick() call (hook commit; a loop added without one is invisible to this check)"],
     },
     "C18": {
+        "require": [('operators', 'panic'), ('operators', 'value'), ('shift', 'value'), ('sum-product', 'value'), ('from_num', 'panic'), ('parse', 'err')],
         "title": "Wrapping<F> computes exactly the modulo-2^n result and never panics on overflow",
         "stages": [{"driver": "wrap"}],
         "rule": ("explicit-state exploration of Wrapping<F>: the state is the wrapped value. 8-bit layouts: breadth-first search from 0 over the full transition "
@@ -109,6 +115,7 @@ PROPS = {
         "assumptions": ["parity-scale-codec's encoding of primitive integers and serde_json are the reference for 'the encoding of the underlying integer' and the {bits} representation", "the subject is built with its optional `serde` feature for this check only"],
     },
     "C08": {
+        "require": [('from_str-decimal', 'err'), ('from_str-hex', 'value'), ('overflowing_from_str-binary', 'flag-set'), ('overflowing_from_str-octal', 'value')],
         "title": "parsing returns the correctly rounded value of the literal, or a precise error",
         "stages": [{"driver": "text"}],
         "rule": ("all 506 layouts x radix {2, 8, 10, 16} x {from_str, saturating_, wrapping_, overflowing_}: (a) every string up to a length bound over reduced "
@@ -120,6 +127,7 @@ PROPS = {
         "assumptions": ["for a malformed string any error other than the overflow error is accepted (the property does not fix precedence among malformed kinds)"],
     },
     "C09": {
+        "require": [('Display:body', 'value'), ('UpperHex:body', 'value'), ('Display:round-trip', 'value'), ('all:flags', 'value')],
         "title": "formatting is faithful: printed digits are the rounded value and round-trip",
         "stages": [{"driver": "text"}],
         "rule": ("all 506 layouts: every value of the 8-bit layouts (thorough: 16-bit too), boundary alphabet and values next to round decimals otherwise x "
@@ -130,38 +138,45 @@ PROPS = {
         "assumptions": ["the padding rule is that of core::fmt::Formatter::pad_integral (sign, then prefix, zero flag pads after the prefix and overrides fill/alignment, default right alignment)"],
     },
     "C03": {
+        "require": [('cmp', 'sat-low'), ('cmp', 'sat-high'), ('cmp', 'zero'), ('cmp<f32>', 'code'), ('cmp_rev<u8>', 'code'), ('same_type_ord_hash<i8>', 'code')],
         "title": "comparisons order the exact values across fixed types, integers and floats; Eq/Ord/Hash within a type",
         "stages": [{"driver": "cross"}, {"driver": "prim"}, {"driver": "crossx", "tiers": ["thorough"]}, {"driver": "primx", "tiers": ["thorough"]}],
         "rule": CROSS_RULE + PRIM_RULE + "a state is one (layout pair, value pair); a transition observes == != < <= > >= partial_cmp (and cmp/Hash/max within a type) and compares with the ordering of the exact rationals; non-trivial = not both operands zero",
     },
     "C04": {
+        "require": [('checked_to_num', 'none'), ('overflowing_from_num', 'flag-set'), ('From', 'value'), ('LossyFrom', 'value'), ('checked_from_num<i8>', 'none'), ('overflowing_to_num<u128>', 'flag-set'), ('From_prim<u8>', 'value'), ('LossyFrom_fixed<i64>', 'value')],
         "title": "fixed<->fixed and fixed<->integer conversions exact with precise overflow; From / LossyFrom",
         "stages": [{"driver": "cross"}, {"driver": "prim"}, {"driver": "crossx", "tiers": ["thorough"]}, {"driver": "primx", "tiers": ["thorough"]}],
         "rule": CROSS_RULE + PRIM_RULE + "a transition is one conversion call (to_num/from_num entry points x plain/checked/saturating/wrapping/overflowing, From and LossyFrom wherever the impl exists, detected at compile time) compared with floor(value * 2^dst_frac) and the overflow policy",
         "assumptions": ["From/LossyFrom are judged only for the type pairs for which an impl exists (existence itself is not specified by the property)"],
     },
     "C05": {
+        "require": [('checked_from_num<f32>', 'none'), ('from_num<f32>', 'panic'), ('overflowing_from_num<f64>', 'flag-set'), ('to_num<f32>', 'float'), ('From_fixed<f64>', 'float')],
         "title": "float conversions correctly rounded (ties to even) in both directions",
         "stages": [{"driver": "prim"}, {"driver": "primx", "tiers": ["thorough"]}],
         "rule": PRIM_RULE + "a transition is one float->fixed or fixed->float conversion call in one of its forms, compared with exact IEEE-754 decode / round-to-nearest-even encode done by integer manipulation",
     },
     "C01": {
+        "require": [('checked_mul', 'value'), ('checked_div', 'value'), ('mul@ref_ref', 'value'), ('div@assign_ref', 'value')],
         "title": "products and quotients exactly rounded",
         "stages": [{"driver": "arith"}],
         "rule": ARITH_RULE,
         "assumptions": ["judged only where the exact result is representable (the property's 'whenever')"],
     },
     "C02": {
+        "require": [('checked_add', 'none'), ('checked_div', 'none'), ('overflowing_mul', 'flag-set'), ('overflowing_neg', 'flag-set'), ('wrapping_div', 'panic'), ('saturating_mul_int', 'value'), ('checked_abs', 'none'), ('overflowing_div_int', 'flag-set')],
         "title": "checked/saturating/wrapping/overflowing agree on one exact result",
         "stages": [{"driver": "arith"}],
         "rule": ARITH_RULE,
     },
     "C06": {
+        "require": [('checked_ceil', 'none'), ('overflowing_round', 'flag-set'), ('overflowing_floor', 'flag-set'), ('checked_round_ties_to_even', 'none'), ('frac', 'value'), ('int', 'value')],
         "title": "rounding operations",
         "stages": [{"driver": "arith"}],
         "rule": ARITH_RULE,
     },
     "C07": {
+        "require": [('checked_rem', 'none'), ('rem', 'panic'), ('checked_div_euclid', 'none'), ('overflowing_rem_euclid_int', 'flag-set'), ('overflowing_div_euclid_int', 'flag-set'), ('checked_rem_euclid_int', 'none')],
         "title": "remainders and Euclidean division",
         "stages": [{"driver": "arith"}],
         "rule": ARITH_RULE,
